@@ -30,7 +30,7 @@ pub fn gen_library(r: &mut Rng, big: bool) -> Vec<(String, String)> {
                 // well-nested most of the time
                 level = if r.chance(1, 10) { r.range(1, 6) } else { (level + r.below(2)).max(1).min(if r.chance(1, 3) { level + 1 } else { level.max(1) }) };
                 let level = level.max(1).min(6);
-                let t = if r.chance(1, 12) { "`x`".to_string() } else { format!("{} {}", r.pick(&titles), r.below(3)) };
+                let t = if r.chance(1, 12) { "`x`".to_string() } else if r.chance(1, 14) { String::new() } else { format!("{} {}", r.pick(&titles), r.below(3)) };
                 text.push_str(&format!("{} {}\n\n", "#".repeat(level), t));
                 match r.below(6) {
                     0 | 1 => {
